@@ -89,7 +89,7 @@ class HashTable:
             possible_keys = self._keys[h]
             offset = np.flatnonzero(possible_keys == keys)
             return h, offset
-        keys = np.asanyarray(keys)
+        keys = np.asanyarray(keys, dtype=self._key_dtype)
         hashes = self._get_hash(keys)
         possible_keys = self._keys[hashes]
         rows, offsets = (possible_keys == keys[:, None]).nonzero()
@@ -100,7 +100,7 @@ class HashTable:
         return hashes, offsets
 
     def contains(self, keys):
-        keys = np.asanyarray(keys)
+        keys = np.asanyarray(keys, dtype=self._key_dtype)
         hashes = self._get_hash(keys)
         possible_keys = self._keys[hashes]
         rows, offsets = (possible_keys == keys[:, None]).nonzero()
@@ -296,7 +296,7 @@ class HashSet(HashTable):
             h = self._get_hash(keys)
             possible_keys = self._keys[h]
             return np.any(possible_keys == keys)
-        keys = np.asanyarray(keys)
+        keys = np.asanyarray(keys, dtype=self._key_dtype)
         hashes = self._get_hash(keys)
         possible_keys = self._keys[hashes]
         return np.any(possible_keys == keys[:, None], axis=-1)
